@@ -49,6 +49,9 @@ def corpus_streams():
     for f in sorted(os.listdir(d)) if os.path.isdir(d) else []:
         if f.startswith(("ini-", "aconf-")) and f.endswith(".ops"):
             out.append(Stream("corpus:" + f, [l.strip() for l in open(os.path.join(d, f)) if l.strip()]))
+        elif f.startswith(("nomodel-ini-", "nomodel-aconf-")) and f.endswith(".ops"):
+            # witnesses that use a harness mode the Lean model does not have (e.g. a refusing default handler)
+            out.append(Stream("corpus:" + f, [l.strip() for l in open(os.path.join(d, f)) if l.strip()], nomodel=True))
     return out
 
 
